@@ -28,6 +28,7 @@ type Facts struct {
 	Tables map[string][][2]any `json:"tables"` // (code, name) tables
 	Bools  map[string]bool     `json:"bools"`
 	Miss   []string            `json:"missing"` // anchors not found
+	Read   *ReadFacts          `json:"readOnly,omitempty"` // C20 effect table with evidence (effects.go)
 }
 
 var facts = Facts{Nat: map[string]int64{}, Bytes: map[string][]int64{}, Tables: map[string][][2]any{}, Bools: map[string]bool{}}
@@ -221,7 +222,7 @@ func (p *Pkg) factVarBytes(name, ident string) {
 
 func load(dir string, pats ...string) map[string]*Pkg {
 	cfg := &packages.Config{
-		Mode: packages.NeedName | packages.NeedFiles | packages.NeedSyntax | packages.NeedTypes | packages.NeedTypesInfo | packages.NeedImports | packages.NeedDeps,
+		Mode: packages.NeedName | packages.NeedFiles | packages.NeedSyntax | packages.NeedTypes | packages.NeedTypesInfo | packages.NeedImports | packages.NeedDeps | packages.NeedTypesSizes,
 		Dir:  dir,
 		Env:  append(os.Environ(), "GOFLAGS=-mod=mod", "GOPROXY=off", "GOSUMDB=off", "GOTOOLCHAIN=local"),
 	}
@@ -231,6 +232,7 @@ func load(dir string, pats ...string) map[string]*Pkg {
 		os.Exit(2)
 	}
 	out := map[string]*Pkg{}
+	loadedPkgs = pkgs
 	for _, p := range pkgs {
 		if len(p.Errors) > 0 {
 			fmt.Fprintln(os.Stderr, "package errors:", p.PkgPath, p.Errors)
@@ -242,6 +244,9 @@ func load(dir string, pats ...string) map[string]*Pkg {
 }
 
 const mod = "github.com/insomniacslk/dhcp"
+
+// loadedPkgs: the initial packages as loaded (effects.go builds go/ssa from them).
+var loadedPkgs []*packages.Package
 
 func main() {
 	repo := "/repo"
@@ -262,6 +267,8 @@ func main() {
 	pkgs := load(repo, "./dhcpv4", "./dhcpv6", "./rfc1035label", "./iana", "./dhcpv4/nclient4", "./dhcpv6/nclient6", "./dhcpv4/server4", "./dhcpv6/server6")
 	extractV4(pkgs[mod+"/dhcpv4"])
 	extractMore(pkgs)
+	extractEffects(loadedPkgs)
+	facts.Read = readFacts
 
 	js, _ := json.MarshalIndent(facts, "", " ")
 	if outJSON != "" {
@@ -346,6 +353,7 @@ func renderLean() string {
 		typ := "Nat"
 		fmt.Fprintf(&b, "def %s : Option %s := none -- ANCHOR NOT FOUND\n", k, typ)
 	}
+	renderReadEffects(&b)
 	b.WriteString("\nend Dhcp.Gen\n")
 	return b.String()
 }
